@@ -30,7 +30,11 @@ def run(ctx):
     ]
     ctx.trusted += ["modelled, not verified: z3/pysmt and the effect analysis of new_eff.py / new_analysis_core.py",
                     SEARCH_ONLY_NOTE]
-    broken = ctx.lean_obligations(["ExoModel.Props.C01", "ExoModel.Props.C01Subst", "ExoModel.Props.C01Data", "ExoModel.Props.C01Alpha"])
+    # T-gen: the scheduling-primitive registry and the "stdlib builds procedures only through primitives" facts
+    from translate import registry
+    reg = registry.generate()
+    ctx.extra["registry"] = {k: (v if not isinstance(v, list) or len(v) < 80 else len(v)) for k, v in reg.items()}
+    broken = ctx.lean_obligations(["ExoModel.Props.C01Registry", "ExoModel.Props.C01", "ExoModel.Props.C01Subst", "ExoModel.Props.C01Data", "ExoModel.Props.C01Alpha"])
     recs = sched_run.run_stream(ctx, ["obs_sem"], nvariants=ctx.scale(1, 3),
                                 opts={"depth": ctx.scale(2, 2), "n_inputs": ctx.scale(3, 6),
                                       "depth2_procs": ctx.scale(3, 10), "depth2_attempts": ctx.scale(12, 40)})
@@ -80,6 +84,9 @@ def run(ctx):
     for key, what, replay, noinp in apps_sem.run_apps(ctx, REPO, ctx.scale(1, 2),
                                                       ctx.scale([(6, 64, 2), (7, 70, 3)], [(6, 64, 2), (7, 70, 3), (13, 129, 5), (1, 1, 1)])):
         ctx.violation(key, what, replay, no_input=noinp)
+    tried = {k.split(":", 1)[1] for k in ctx.counts if k.startswith(("accepted:", "rejected:"))}
+    ctx.extra["primitives_never_attempted_by_the_stream"] = sorted(p for p in reg["primitives"] if p not in tried)
+    ctx.extra["primitives_with_lean_model_and_tie"] = sorted(__import__("obs_sem").Observer.MODELLED)
     ctx.extra["ops_accepted"] = {k.split(":", 1)[1]: v for k, v in ctx.counts.items() if k.startswith("accepted:")}
     ctx.extra["ops_rejected"] = {k.split(":", 1)[1]: v for k, v in ctx.counts.items() if k.startswith("rejected:")}
     if broken:
